@@ -3,7 +3,7 @@
   pre-state records of all addresses the harness tracks, the transaction, and the interpreter's
   observed outputs; the model prints the result code / stage / gas and the post-state records.
 
-  deliver <enabled> <minFee> <gasPool> <newAddr|~>
+  deliver <enabled> <minFee> <gasPool> <newAddr|~> <meterShut> <feeGasLeft>
           <from> <to|~> <nonce> <value> <gas> <price> <nz> <z> <size> <memo|x>
           <sigs> <sigOk> <chainOk> <senderOk> <feeCurOk> <amtCurOk> <addrOk> <chainNil>
           <payloadCanon> <signerKeyOk> <typeOk> <memoCanon>
@@ -79,6 +79,7 @@ def showStage : Stage → String
   | .consensus e => "consensus:" ++ showTErr e
   | .panic => "panic"
   | .gasOverflow => "gasOverflow"
+  | .feeRefused => "feeRefused"
   | .reverted => "reverted"
   | .success => "success"
 
@@ -117,16 +118,17 @@ structure Parsed where
 
 def parseFields (f : List String) : Option Parsed :=
   match f with
-  | enabled :: minFee :: gasPool :: newAddr :: [from_, to, nonce, value, gas, price, nz, z, size, memo,
+  | enabled :: minFee :: gasPool :: newAddr :: meterShut :: feeGasLeft :: [from_, to, nonce, value, gas, price, nz, z, size, memo,
      sigs, sigOk, chainOk, senderOk, feeCurOk, amtCurOk, addrOk, chainNil,
      payloadCanon, signerKeyOk, typeOk, memoCanon,
      vmGasLeft, vmRefund, vmFailed, vmRetCode, effs, pool, accts] =>
-    match minFee.toInt?, gasPool.toNat?, nonce.toNat?, value.toInt?, gas.toInt?, price.toInt?, nz.toNat?, z.toNat? with
-    | some minFee, some gasPool, some nonce, some value, some gas, some price, some nz, some z =>
+    match minFee.toInt?, gasPool.toNat?, nonce.toNat?, value.toInt?, gas.toInt?, price.toInt?, nz.toNat?, z.toNat?, feeGasLeft.toNat? with
+    | some minFee, some gasPool, some nonce, some value, some gas, some price, some nz, some z, some feeGasLeft =>
       match size.toNat?, sigs.toNat?, vmGasLeft.toNat?, vmRefund.toNat?, parseEffs effs, pool.toInt?, parseAccts accts with
       | some size, some sigs, some vmGasLeft, some vmRefund, some effs, some pool, some accts =>
         some {
-          env := { enabled := b01 enabled, minFee := minFee, gasPool := gasPool, newAddr := if newAddr == "~" then "" else newAddr },
+          env := { enabled := b01 enabled, minFee := minFee, gasPool := gasPool, newAddr := if newAddr == "~" then "" else newAddr,
+                   meterShut := b01 meterShut, feeGasLeft := feeGasLeft },
           tx := { sender := from_, to := optAddr to, nonce := nonce, value := value, gas := gas, price := price, nz := nz, z := z,
                   size := size, memo := if memo == "x" then none else memo.toNat?, sigs := sigs, sigOk := b01 sigOk,
                   chainOk := b01 chainOk, senderOk := b01 senderOk, feeCurOk := b01 feeCurOk, amtCurOk := b01 amtCurOk,
@@ -135,7 +137,7 @@ def parseFields (f : List String) : Option Parsed :=
           vm := { gasLeft := vmGasLeft, refund := vmRefund, failed := b01 vmFailed, retCode := b01 vmRetCode, effs := effs },
           pool := pool, accts := accts }
       | _, _, _, _, _, _, _ => none
-    | _, _, _, _, _, _, _, _ => none
+    | _, _, _, _, _, _, _, _, _ => none
   | _ => none
 
 def stepLine (line : String) : String :=
